@@ -12,5 +12,13 @@ Open Scope string_scope.
 
 (* both result channels of the concurrent middleware are buffered with one and the same
    non-literal capacity expression (one slot per attempt) *)
-Lemma concurrent_channels_ok : same_expr_caps 2 chans_concurrent = true.
+(* count-free: at least one channel, all with the same non-literal capacity expression (one
+   slot per worker); a rewrite that carries payloads and errors on ONE channel of that capacity
+   regenerates facts that still pass, a literal or smaller capacity on any channel does not *)
+Definition all_same_expr_caps (caps : list string) : bool :=
+  match caps with
+  | [] => false
+  | c :: r => starts_with "expr:" c && forallb (String.eqb c) r
+  end.
+Lemma concurrent_channels_ok : all_same_expr_caps chans_concurrent = true.
 Proof. vm_compute; reflexivity. Qed.
